@@ -517,6 +517,11 @@ func (vc *FnVC) applyModItem(m modItem, pos token.Pos) {
 	case "elems":
 		vc.checkWrite(m.comp, m.ref, "", "callee-modifies "+m.text, pos)
 		f := vc.freshConst("cm", "(Array Int "+vc.sortOf(m.elem)+")")
+		if m.elem != nil {
+			for _, rf := range vc.rangeFacts(fmt.Sprintf("(select %s i)", f), m.elem, 0) {
+				vc.fact(fmt.Sprintf("(forall ((i Int)) (! %s :pattern ((select %s i))))", rf, f))
+			}
+		}
 		vc.heapSet(m.comp, srt, fmt.Sprintf("(store %s %s %s)", vc.heapGet(m.comp, srt), m.ref, f))
 	case "objrange":
 		if vc.fc != nil && !vc.rootIsFresh(m.ref) {
@@ -545,6 +550,9 @@ func (vc *FnVC) applyModItem(m modItem, pos token.Pos) {
 	case "range":
 		vc.checkRangeWrite(m, pos)
 		f := vc.freshConst("cm", "(Array Int "+vc.sortOf(m.elem)+")")
+		for _, rf := range vc.rangeFacts(fmt.Sprintf("(select %s i)", f), m.elem, 0) {
+			vc.fact(fmt.Sprintf("(forall ((i Int)) (! %s :pattern ((select %s i))))", rf, f))
+		}
 		old := fmt.Sprintf("(select %s %s)", vc.heapGet(m.comp, srt), m.ref)
 		vc.fact(fmt.Sprintf("(forall ((i Int)) (! (=> (or (< i %s) (>= i %s)) (= (select %s i) (select %s i))) :pattern ((select %s i))))", m.lo, m.hi, f, old, f))
 		vc.heapSet(m.comp, srt, fmt.Sprintf("(store %s %s %s)", vc.heapGet(m.comp, srt), m.ref, f))
@@ -1115,14 +1123,21 @@ func (vc *FnVC) havocArg(a ssa.Value, pos token.Pos, callee string) {
 			return
 		}
 		c, srt := vc.elemComp(el)
+		// the callee may write the elements the slice gives access to: [off, off+len)
+		// (writing beyond len through re-slicing up to cap is not considered)
+		lo := fmt.Sprintf("(s.off %s)", s)
+		hi := fmt.Sprintf("(+ (s.off %s) (s.len %s))", s, s)
 		if vc.fc != nil && !vc.rootIsFresh(arr) {
-			vc.checkWrite(c, arr, "", vc.valueText(a)+"[..] (passed to "+lastSeg(callee)+")", pos)
+			vc.checkRangeWrite(modItem{text: vc.valueText(a) + "[..] (passed to " + lastSeg(callee) + ")", kind: "range", ref: arr, comp: c, elem: el, lo: lo, hi: hi}, pos)
 		}
 		f := vc.freshConst("hv", "(Array Int "+vc.sortOf(el)+")")
 		for _, rf := range vc.rangeFacts(fmt.Sprintf("(select %s i)", f), el, 0) {
 			vc.fact(fmt.Sprintf("(forall ((i Int)) (! %s :pattern ((select %s i))))", rf, f))
 		}
+		old := fmt.Sprintf("(select %s %s)", vc.heapGet(c, srt), arr)
+		vc.fact(fmt.Sprintf("(forall ((i Int)) (! (=> (or (< i %s) (>= i %s)) (= (select %s i) (select %s i))) :pattern ((select %s i))))", lo, hi, f, old, f))
 		vc.heapSet(c, srt, fmt.Sprintf("(store %s %s %s)", vc.heapGet(c, srt), arr, f))
+		vc.assume("uncontracted callees write a slice argument only within its length (not up to its capacity)")
 		if _, isPtr := el.Underlying().(*types.Pointer); isPtr {
 			seen := map[string]types.Type{}
 			reachTypes(el, seen, false)
